@@ -2,18 +2,28 @@ use crate::json::J;
 use rustc_hir::def::DefKind;
 use rustc_middle::mir::interpret::Scalar;
 use rustc_middle::mir::*;
-use rustc_middle::ty::print::with_no_trimmed_paths;
+use rustc_middle::ty::print::{with_crate_prefix, with_no_trimmed_paths};
+use std::cell::RefCell;
+
+thread_local! {
+    pub static CRATE: RefCell<String> = RefCell::new(String::new());
+}
+
+/// Print with `crate::` prefixes for local items and replace them by the crate's name, so that
+/// every path and type string in the facts is crate-qualified.
+pub fn qualify(s: String) -> String {
+    if !s.contains("crate::") {
+        return s;
+    }
+    CRATE.with(|c| s.replace("crate::", &format!("{}::", c.borrow())))
+}
+
 use rustc_middle::ty::{self, Ty, TyCtxt};
 use rustc_span::def_id::DefId;
 use rustc_span::{ExpnKind, Span};
 
 pub fn full_path<'tcx>(tcx: TyCtxt<'tcx>, did: DefId) -> String {
-    let p = with_no_trimmed_paths!(tcx.def_path_str(did));
-    if did.is_local() {
-        format!("{}::{}", tcx.crate_name(did.krate), p)
-    } else {
-        p
-    }
+    qualify(with_crate_prefix!(with_no_trimmed_paths!(tcx.def_path_str(did))))
 }
 
 pub fn full_path_args<'tcx>(
@@ -21,16 +31,11 @@ pub fn full_path_args<'tcx>(
     did: DefId,
     args: ty::GenericArgsRef<'tcx>,
 ) -> String {
-    let p = with_no_trimmed_paths!(tcx.def_path_str_with_args(did, args));
-    if did.is_local() && !p.starts_with('<') {
-        format!("{}::{}", tcx.crate_name(did.krate), p)
-    } else {
-        p
-    }
+    qualify(with_crate_prefix!(with_no_trimmed_paths!(tcx.def_path_str_with_args(did, args))))
 }
 
 pub fn ty_str<'tcx>(ty: Ty<'tcx>) -> String {
-    with_no_trimmed_paths!(ty.to_string())
+    qualify(with_crate_prefix!(with_no_trimmed_paths!(ty.to_string())))
 }
 
 pub fn line_of<'tcx>(tcx: TyCtxt<'tcx>, span: Span) -> (String, usize) {
